@@ -94,6 +94,16 @@ fn marshal_struct(
     Ok(())
 }
 
+/// Marshal a `params::Variant` that is not wrapped in a `Param`, with the same checks as `marshal_container_param`
+pub fn marshal_variant_param(
+    var: &params::Variant,
+    ctx: &mut MarshalContext,
+) -> Result<(), MarshalError> {
+    // the variant itself is the container at depth 0
+    check_param_shape(&var.value, 1)?;
+    marshal_variant(var, ctx, 1)
+}
+
 fn marshal_variant(
     var: &params::Variant,
     ctx: &mut MarshalContext,
